@@ -9,6 +9,7 @@ import (
 	"go/constant"
 	"go/token"
 	"go/types"
+	"regexp"
 	"strings"
 
 	"golang.org/x/tools/go/ssa"
@@ -1488,6 +1489,118 @@ func c09BestLoop(c *Ctx, fn *ssa.Function, list string, run func(c *Ctx, loop *l
 	}
 	for _, o := range best.Obls {
 		c.add(&Obligation{Key: strings.TrimPrefix(o.Key, c.Prop+"/"), Rule: o.Rule, Status: o.Status, Site: o.Site, Detail: o.Detail, Path: o.Path})
+	}
+	return true
+}
+
+// ---- what the must-pass facts about the halves of a string entail -----------------------------------------------------
+
+// cutFact names a fact about the string s and the constant separator sep.
+type cutFact int
+
+const (
+	cfFound  cutFact = iota // sep occurs in s
+	cfBefore                // the part of s before the first sep is not empty
+	cfAfter                 // the part of s after the first sep is not empty
+)
+
+// c09CutFacts holds, for each of the three facts, the edge labels (canonical, exact) that entail it.
+type c09CutFacts struct {
+	labels [3]map[string]bool
+}
+
+// c09RejectsEmpty: the constant pattern does not match the empty string. (Decided by compiling the pattern with the
+// regexp package itself — MatchString is a pure function of the pattern and the subject.)
+func c09RejectsEmpty(pat string) bool {
+	re, err := regexp.Compile(pat)
+	return err == nil && !re.MatchString("")
+}
+
+// c09NewCutFacts collects the labels of fn that entail the facts about s (a rendering) and sep (`const:"/"`).
+// With before, after, found = strings.Cut(s, sep) (the halves may also be written as slices of s at strings.Index: desc
+// renders them alike) and i = strings.Index(s, sep):
+//
+//   - found: `found` itself (also spelled i >= 0: condLabel), strings.Contains(s, sep) and its spellings
+//     (ContainsRune / ContainsAny for a separator of one character, Count != 0);
+//     after != "" — contract of strings.Cut: "if sep does not appear in s, cut returns s, "", false", so a non-empty
+//     second half was cut off behind a separator; i > 0 (then i >= 0);
+//   - before != "": the comparison itself (or len(before) != 0); i > 0 — before is s[:i], of length i;
+//   - after != "": the comparison itself (or len(after) != 0);
+//   - for either half: MatchString(half) answered true on a compiled constant pattern (c09RegexpPattern) that does not
+//     match the empty string (c09RejectsEmpty) — the half is in the language of the pattern, "" is not.
+//
+// Soundness: each label is a sufficient condition of its fact by the documented contract of the library function (or
+// by the language of a constant pattern, evaluated, not assumed), so an exit that lies behind the label lies behind
+// the fact: the rule that demands the fact on every success exit is decided on the closure of the must-pass set
+// instead of on one spelling of it. Nothing is entailed by before != "" alone (without separator, before is s).
+func c09NewCutFacts(w *World, fn *ssa.Function, s, sep string) *c09CutFacts {
+	cf := &c09CutFacts{}
+	for i := range cf.labels {
+		cf.labels[i] = map[string]bool{}
+	}
+	add := func(k cutFact, ls ...string) {
+		for _, l := range ls {
+			cf.labels[k][l] = true
+		}
+	}
+	cut := "call:strings.Cut(" + s + "," + sep + ")"
+	half := [2]string{cut + "#0", cut + "#1"}
+	add(cfFound, "T("+cut+"#2)", "T(call:strings.Contains("+s+","+sep+"))")
+	for _, n := range []string{"call:strings.Count(" + s + "," + sep + ")"} {
+		add(cfFound, "NE("+n+",const:0)", "GT("+n+",const:0)", "GE("+n+",const:1)")
+	}
+	if sv, err := unquote(strings.TrimPrefix(sep, "const:")); err == nil && len(sv) == 1 && sv[0] < 128 {
+		add(cfFound, fmt.Sprintf("T(call:strings.ContainsRune(%s,const:%d))", s, sv[0]), "T(call:strings.ContainsAny("+s+","+sep+"))")
+	}
+	for k, fact := range []cutFact{cfBefore, cfAfter} {
+		add(fact, "NE("+half[k]+`,const:"")`, "NE(len("+half[k]+"),const:0)")
+	}
+	for _, ci := range allCalls(fn) {
+		call, ok := ci.(*ssa.Call)
+		if !ok {
+			continue
+		}
+		// i > 0 for i = strings.Index(s, sep)
+		if sd, sp, ok := indexCall(call); ok && sd == s && sp == sep {
+			d := desc(call)
+			add(cfBefore, "GT("+d+",const:0)", "GE("+d+",const:1)")
+			add(cfFound, "GT("+d+",const:0)", "GE("+d+",const:1)")
+		}
+		// a half matched by a constant pattern that rejects ""
+		if calleeName(call) == "(*regexp.Regexp).MatchString" && len(call.Call.Args) == 2 {
+			for k, fact := range []cutFact{cfBefore, cfAfter} {
+				if desc(call.Call.Args[1]) != half[k] {
+					continue
+				}
+				if pat, isConst := c09RegexpPattern(w, call.Call.Args[0], 0); isConst && c09RejectsEmpty(pat) {
+					add(fact, "T("+desc(call)+")")
+				}
+			}
+		}
+	}
+	// a non-empty second half was cut off behind a separator
+	for l := range cf.labels[cfAfter] {
+		add(cfFound, l)
+	}
+	return cf
+}
+
+// onAll: every success exit of the summary lies behind a label that entails the fact.
+func (cf *c09CutFacts) onAll(fs *Summary, k cutFact) bool {
+	if len(fs.Exits) == 0 {
+		return false
+	}
+	for _, ex := range fs.Exits {
+		ok := false
+		for l := range cf.labels[k] {
+			if labelHas(ex.Checked, l) {
+				ok = true
+				break
+			}
+		}
+		if !ok {
+			return false
+		}
 	}
 	return true
 }
